@@ -241,7 +241,9 @@ func runC05(c *mon.Ctx) {
 			}
 		}
 	}
-	for _, s := range []string{``, `null`, `{}`, `[]`, `{"a":1,"a":2}`, `{"b":"x","b":"y","d":1}`, `{"y":"1","y":"2"}`, `{"psa-nonce":null}`, `{"psa-software-components":[null]}`,
+	for _, s := range []string{`{"psa-profile":"PSA_IOT_PROFILE_1","eat-profile":"http://arm.com/psa/2.0.0"}`, `{"eat-profile":"http://arm.com/psa/2.0.0","psa-profile":"PSA_IOT_PROFILE_1","psa-client-id":1}`,
+		`{"psa-profile":null,"eat-profile":"http://example.com/unregistered"}`, `{"psa-profile":"PSA_IOT_PROFILE_1","eat-profile":"http://example.com/psa-ext/2.0.0"}`,
+		``, `null`, `{}`, `[]`, `{"a":1,"a":2}`, `{"b":"x","b":"y","d":1}`, `{"y":"1","y":"2"}`, `{"psa-nonce":null}`, `{"psa-software-components":[null]}`,
 		`{"psa-software-components":null}`, `{"eat-profile":null}`, `{"eat-profile":"http://arm.com/psa/2.0.0","eat-profile":"PSA_IOT_PROFILE_1"}`, `[{"a":1}]`, `"x"`, `1`, `{"a":{"a":{"a":1}}}`, `{"":1}`, `{"a":1}{"a":2}`} {
 		h.run("json", "hand-made-json", []byte(s))
 	}
@@ -377,6 +379,14 @@ func runC05(c *mon.Ctx) {
 		h.run(fam, class, m)
 		if i%50 == 0 {
 			c.Sig(fam + "|" + class + "|" + a.kind)
+		}
+	}
+	// whatever an earlier input left behind must not break a later, good one:
+	// every entry point must still accept a valid item of its family
+	for _, fam := range []string{"cbor", "cose", "json"} {
+		for r := 0; r < 4; r++ {
+			it := pick(fam)
+			h.run(fam, "final-control:"+it.kind, it.bytes)
 		}
 	}
 	for _, ep := range h.eps {
